@@ -16,6 +16,9 @@ Decided clauses:
         (fixed-size key/nonce/tag parameters, or an explicit constant length argument) - the branch
         facts on the path establish length >= that extent; when the rest (buffer + k, length - d) is
         passed on, the subtraction cannot wrap (length >= d) and stays inside (k <= d).
+  R12.6 allocation requests driven by (attacker-chosen) cost parameters fail closed: the allocation typestate
+        rules of C20 (tested before use, failing arm only reaches failing exits, released once) over everything
+        reachable from the password-hashing and guarded-allocation APIs, reported as R12.6/R20.x.
   R12.5 no definite tail over-read: a fixed-size read at buffer + (length - r) - r being the remainder a
         word loop leaves, bounded by the branch facts - needs at least that many bytes to remain.
 NOT decided: absence of out-of-bounds / undefined behaviour in general (needs a relational numeric
@@ -179,6 +182,28 @@ def run(ctx, chk):
     c15.decoder_rules(prog, chk, rule_prefix="R12.3")
     # ---- R12.4 ------------------------------------------------------------------------------------------
     min_length_rule(prog, chk)
+    # ---- R12.6 ------------------------------------------------------------------------------------------
+    # "sizes that cannot be served are refused with an error return": a cost parameter taken from an attacker-chosen hash
+    # string reaches the allocators of the password-hashing cores; the allocation typestate of C20 (result tested before
+    # use, failing arm only reaches failing exits, no use after release) is therefore also a clause of C12. Same engine,
+    # reported under R12.6.
+    from . import c20
+
+    class _Renamed:
+        def __init__(self, inner):
+            self._c = inner
+
+        def ob(self, rule, *a, **kw):
+            if "key" in kw and kw["key"]:
+                kw["key"] = "R12.6/" + kw["key"]
+            return self._c.ob("R12.6/" + rule, *a, **kw)
+
+        def floor(self, rule, *a, **kw):
+            return self._c.floor("R12.6/" + rule, *a, **kw)
+
+        def __getattr__(self, n):
+            return getattr(self._c, n)
+    c20.analyse(prog, _Renamed(chk), "native")
 
 
 def chase_all(f, o):
